@@ -75,6 +75,12 @@ TEXTS = {
         "text": "From a legal plan one class's records are withheld: as a listed base, a method parameter or a definition parameter (update must report unknown_class with that class's id and install nothing; after the registration arrives the next update is clean), or as the dynamic class of an argument at each virtual position through references, pointers, shared_ptr, virtual_ptr from a base reference, from the exact static type, copied, moved (the call or construction must report it before any table read or definition); final on another dynamic type must report a method table error; with a returning handler a forked child must die by SIGABRT after exactly one report.",
         "note": "checked policies only (debug-shaped with the simulator's ids, stock debug with std_rtti, checked+indirect, deferred); final on an unregistered exact type is outside the property (final skips the look-up by design)",
     },
+    "C16": {
+        "technique": "deterministic simulation: seeded thread schedules (real threads parked and released one at a time) under ThreadSanitizer with a hidden hand-off, results compared with the sequential execution",
+        "design_ref": "DESIGN.md 3.6, 4 (C16)",
+        "text": "Caller threads run seeded scripts on policy A (calls through every argument route, resolve only, erroring calls whose handler throws, making / copying / converting / using / dropping virtual_ptrs and virtual_shared_ptrs) while another thread loads, unloads, updates (also with injected faults) and calls policy B; the scheduler decides every interleaving from the seed. Checked: no ThreadSanitizer report (found by happens-before analysis although execution is serialised, hence replayable), every result equals the one of the sequential execution of the same script and the model, and the data update<A> published is unchanged at every scheduler step.",
+        "note": "exploration over schedules; TSan sees no synchronisation between tasks because the scheduler's futex words are only touched from uninstrumented functions",
+    },
     "C17": {
         "technique": SIM + "registries x abstract flags, report compared with an enumeration by the model",
         "design_ref": "DESIGN.md 4 (C17)",
@@ -90,7 +96,6 @@ TEXTS = {
 }
 
 NOT_APPLICABLE = {
-    "C16": "check not built yet (sched-sim under TSan planned, DESIGN.md 4)",
     "C11": "quantifies over template instantiations (programs): fixed at compile time, no schedule, fault or history to simulate",
     "C12": "pure text function of installed arrays plus programs compiled with that text; nothing for a simulator to vary",
     "C13": "pure function emitting source for another build; statements about the generated program, no interleaving or fault",
